@@ -65,8 +65,9 @@ structure World where
   immediate : Bool           -- `cache.immediate`
   sess : Sess
   pendingSaved : Bool        -- `cache.saved_objects` is not empty (a flush stopped after it had saved something)
+  modified : Bool            -- `cache.modified` (set by create / assignment / delete, reset only by a flush that succeeded)
 
-def World.init : World := ⟨[], [], false, false, Sess.empty, false⟩
+def World.init : World := ⟨[], [], false, false, Sess.empty, false, false⟩
 
 inductive WErr
   | sess (e : Err)            -- raised by the session call itself (CacheIndexError, …)
@@ -94,27 +95,28 @@ structure FRes where
   ids : List Int             -- generated ids not consumed yet
   saved : Bool               -- this object was saved (`cache.saved_objects.append`)
 
+/-- `_save_created_` with the primary key the row gets: INSERT, then the session transition -/
+def flushInsert (sch : Schema) (w : World) (o : ObjId) (pk : KeyVal) (newId : Option Int) (ids' : List Int) : FRes :=
+  match dbInsert sch w.txn (objRow (w.sess.obj o) pk) with
+  | none => ⟨{ w with inTxn := true, immediate := true }, some .txnIntegrity, ids', false⟩
+  | some t' =>
+      match (saveCreated w.sess o newId).2.err with
+      | some _ => ⟨{ w with txn := t', inTxn := true, immediate := true }, some .autoIdUsed, ids', false⟩
+      | none => ⟨{ w with txn := t', inTxn := true, immediate := true, sess := (saveCreated w.sess o newId).1 }, none, ids', true⟩
+
 /-- `obj._save_()` for one queued object: the statement goes to the database FIRST, then the session transition -/
 def flushObj (sch : Schema) (w : World) (o : ObjId) (ids : List Int) : FRes :=
   let ob := w.sess.obj o
   match ob.status with
   | .created =>
-      let go (pk : KeyVal) (newId : Option Int) (ids' : List Int) : FRes :=
-        match dbInsert sch w.txn (objRow ob pk) with
-        | none => ⟨{ w with inTxn := true, immediate := true }, some .txnIntegrity, ids', false⟩
-        | some t' =>
-            let (s', r) := saveCreated w.sess o newId
-            match r.err with
-            | some _ => ⟨{ w with txn := t', inTxn := true, immediate := true }, some .autoIdUsed, ids', false⟩
-            | none => ⟨{ w with txn := t', inTxn := true, immediate := true, sess := s' }, none, ids', true⟩
       match ob.pk with
-      | some k => go k none ids
+      | some k => flushInsert sch w o k none ids
       | none => match ids with
           | [] =>
               -- no id was generated: the INSERT itself was refused (a key tuple is taken; the generated id is always fresh)
               if w.txn.any (keyClash sch (objRow ob [])) then ⟨{ w with inTxn := true, immediate := true }, some .txnIntegrity, ids, false⟩
               else ⟨w, some .badOp, ids, false⟩
-          | id :: r => go [id] (some id) r
+          | id :: r => flushInsert sch w o [id] (some id) r
   | .modified =>
       match ob.pk with
       | none => ⟨w, some .badOp, ids, false⟩
@@ -145,15 +147,16 @@ def flushGo (sch : Schema) : List ObjId → World → List Int → Bool → Worl
 /-- `cache.flush()` -/
 def flush (sch : Schema) (w : World) (ids : List Int) : World × Option WErr :=
   if w.pendingSaved then (w, some .assertion)                      -- `assert not cache.saved_objects`
-  else if w.sess.queue.isEmpty then (w, none)
+  else if !w.modified then (w, none)                               -- `if not cache.modified: return`
   else
     match flushGo sch w.sess.queue w ids false with
     | (w', some e, saved) => ({ w' with pendingSaved := saved }, some e)
-    | (w', none, _) => (w', none)
+    | (w', none, _) => ({ w' with modified := false }, none)
 
 /-- `rollback()`: the transaction is rolled back and the cache closed; the next call starts with an empty session -/
 def rollback (w : World) : World :=
-  { committed := w.committed, txn := w.committed, inTxn := false, immediate := false, sess := Sess.empty, pendingSaved := false }
+  { committed := w.committed, txn := w.committed, inTxn := false, immediate := false, sess := Sess.empty, pendingSaved := false,
+    modified := false }
 
 /-- `commit()`: flush; any exception -> rollback and re-raise; else COMMIT -/
 def commit (sch : Schema) (w : World) (ids : List Int) : World × Option WErr :=
@@ -168,7 +171,7 @@ def fetch (sch : Schema) (w : World) (cls : Nat) (pk : KeyVal) (ids : List Int) 
   | (s1, { err := none, yield := some _ }) => ({ w with sess := s1 }, none)
   | (s1, { err := none, yield := none }) =>
       let w1 := { w with sess := s1, inTxn := w.inTxn || w.immediate }
-      match (if w1.sess.queue.isEmpty then (w1, none) else flush sch w1 ids) with
+      match (if w1.modified then flush sch w1 ids else (w1, none)) with      -- `if cache.modified: cache.flush()`
       | (w2, some e) => (w2, some e)
       | (w2, none) =>
           match getRow w2.txn pk with
@@ -198,11 +201,19 @@ def sessOpOk : Op → Bool
   | .create .. | .setAttrs .. | .delete .. | .read .. => true
   | _ => false
 
+/-- does the (successful) call set `cache.modified`: a constructor; an assignment to an object that is not `created`;
+    a delete of an object that is neither `created` nor already deleted -/
+def marksModified (s : Sess) : Op → Bool
+  | .create .. => true
+  | .setAttrs o _ => !(s.obj o).isNew
+  | .delete o => !(s.obj o).status.isDel && (s.obj o).status != .created
+  | _ => false
+
 def stepW (sch : Schema) (w : World) : WOp → World × Option WErr
   | .sess op =>
       if sessOpOk op then
         let (s', r) := stepR sch w.sess op
-        ({ w with sess := s' }, r.err.map .sess)
+        ({ w with sess := s', modified := w.modified || (r.err.isNone && marksModified w.sess op) }, r.err.map .sess)
       else (w, some .badOp)
   | .fetch c pk ids => fetch sch w c pk ids
   | .flush ids => flush sch w ids
